@@ -220,7 +220,16 @@ def crafted():
         rq('mix3', 'Vannes_KBE', 'Brest_KLA', bw=100e9, bidir=False),
         rq('mix4', 'Vannes_KBE', 'Brest_KLA', bw=300e9, bidir=True),
     ]
-    return [('crafted:every-outcome', main), ('crafted:every-outcome-reversed', list(reversed(main))),
+    # ids longer than any table column: UUID-like ids sharing a long prefix, identical requests whose joined id is long
+    long_ids = [
+        rq('service-2f1c9a7e-4b0d-4c6e-9a51-00000000000a', 'Lannion_CAS', 'Lorient_KMA', bw=100e9),
+        rq('service-2f1c9a7e-4b0d-4c6e-9a51-00000000000b', 'Lannion_CAS', 'Vannes_KBE', bw=200e9, bidir=True),
+        rq('customer-north-0001', 'Rennes_STA', 'Vannes_KBE', bw=100e9),
+        rq('customer-north-0002', 'Rennes_STA', 'Vannes_KBE', bw=300e9),
+        rq('customer-north-0003', 'Rennes_STA', 'Vannes_KBE', bw=200e9),
+        rq('service-2f1c9a7e-4b0d-4c6e-9a51-00000000000c', 'Lannion_CAS', 'Island'),
+    ]
+    return [('crafted:every-outcome', main), ('crafted:long-ids', long_ids), ('crafted:every-outcome-reversed', list(reversed(main))),
             ('crafted:aggregated-blocked', agg_blocked), ('crafted:aggregated-mixed-bidir', mixed)]
 
 
@@ -250,9 +259,12 @@ def b3(chk):
     p['slot']['path-constraints']['te-bandwidth']['effective-freq-slot'] = [{'N': -284, 'M': 4}]
     for order in (['dense', 'sat', 'slot', 'badmode', 'nopath'], ['slot', 'nopath', 'sat', 'dense'], ['badmode', 'dense', 'slot']):
         jobs.append(('meshV2', 'pool:' + '>'.join(order), {'path-request': [copy.deepcopy(p[c]) for c in order]}))
+    # the command-line entry point (gnpy-path-request ... -o file): the documents it saves are judged like the others
+    jobs.insert(2, ('meshV2+island', 'crafted:long-ids:command-line', {'path-request': crafted()[1][1]}))
+    jobs.insert(3, ('meshV2+island', 'crafted:every-outcome:command-line', {'path-request': crafted()[0][1]}))
     traces, runs = [], {}
     for bench, name, data in jobs:
-        run = pu.run_batch(bench, data, name)
+        run = pu.run_batch(bench, data, name, via='cli' if name.endswith(':command-line') else 'json')
         chk.case(name, nontrivial=True)
         if run.exc:
             chk.violation(f'B3|exception-in-planning-or-report|{name.split(":")[0]}|{run.exc.split(":")[0]}',
@@ -385,6 +397,8 @@ def run(chk):
                        'B3: one case per recorded batch')
     chk.assume('two equipment libraries are used in one process (shipped figures; operator: every mode OSNR +1.5 dB, cost '
                '2c+1, same names): every row must state the figures of the library its export was given')
+    chk.assume('command-line runs: cli_examples.path_requests_run on files (topology, services, library) with -o result.json '
+               'and, in a second invocation, -o result.csv; the saved documents are projected like the API ones')
     chk.assume('request ids do not contain the joining string " | "')
     chk.assume('a value exactly on a rounding tie (x.xx5) may be stated as either neighbour')
     chk.assume('requests reported together must be identical for the user (same ends, transponder, mode, spacing, power, '
